@@ -101,9 +101,22 @@ pub fn build_input(a: &AbsInput, muts: &[AbsMut]) -> (Format, Vec<u8>, Vec<usize
                     let mut kind = "xz".to_string();
                     let f = match sealed {
                         Some(sel) => {
-                            let all = field_mutations(&spec, &valid);
-                            let m = &all[pick(*sel, 0, all.len() as u64 - 1) as usize].0;
-                            kind = "xz-sealed-mutation".into();
+                            let mut all: Vec<crate::refmodel::xz::Mut> = field_mutations(&spec, &valid).into_iter().map(|(m, _)| m).collect();
+                            // whole-file variants: a second stream / stream padding after the
+                            // footer, unsupported check ids in both flag fields
+                            use crate::refmodel::xz::Mut;
+                            for _ in 0..(all.len() / 12).max(1) {
+                                all.push(Mut::Trailing(valid.bytes.clone()));
+                                all.push(Mut::Trailing(vec![0; 4]));
+                                all.push(Mut::BothFlags([0, 0x0A]));
+                                all.push(Mut::BothFlags([0, 0x02]));
+                            }
+                            let m = &all[pick(*sel, 0, all.len() as u64 - 1) as usize];
+                            kind = match m {
+                                Mut::Trailing(_) => "xz-with-trailing-stream-or-padding".into(),
+                                Mut::BothFlags(_) => "xz-unsupported-check".into(),
+                                _ => "xz-sealed-mutation".into(),
+                            };
                             write_xz(&spec, Some(m))
                         }
                         None => valid,
@@ -232,6 +245,8 @@ impl Property for C13 {
             ("input:lzma2", 3000 * k),
             ("input:lzma-raw", 1000 * k),
             ("input:lzma2-out-of-window", 3000 * k),
+            ("input:xz-with-trailing-stream-or-padding", 1000 * k),
+            ("input:xz-unsupported-check", 1000 * k),
             ("opt:ReadHeaderButUseProvided", 1500 * k),
             ("verdict:Ok", 5000 * k),
             ("verdict:Err", 5000 * k),
